@@ -131,7 +131,7 @@ def u16_cases(tier):
 
 
 def gen(r, tier):
-    n = {"quick": 220, "search": 600, "thorough": 2500}[tier]
+    n = {"quick": 110, "search": 400, "thorough": 2000}[tier]
     cases = u16_cases(tier) + u8_cases(r)     # the slow ones first so that the shards start them early
     k = 0
     while len(cases) < n:
@@ -176,8 +176,21 @@ def distribution(cases, outs):
 
 
 MANIFEST = {
-    "text": "filled in below",
-    "note": "",
+    "text": ("Machine-checked proof (Coq) over a model of the entity-id construction (u8 publisher/subscriber counters, "
+             "u16 writer/reader/topic counters, handle = participant prefix + counter bytes + kind) for ALL histories of "
+             "mails and ALL application-level scenarios, with the build profile as a parameter: as long as no counter is "
+             "incremented at the maximum of its type, no creation panics and all live entities have pairwise distinct "
+             "instance handles and RTPS GUIDs (invariant by induction). Inside that class the property is FALSE and "
+             "this is a recorded finding: with overflow checks the 256th publisher/subscriber (65 536th writer/reader/"
+             "topic) of one participant panics the worker, without them the counter wraps and a live handle is reused "
+             "(both proved as witnesses on the model; the panic is reproduced on the real stack for all five counters). "
+             "The model is tied to the code by running create/delete scenarios (up to 65 536 creations in one scenario) "
+             "through the real stack in the simulator and comparing every returned handle / error / panic with the "
+             "model inside Coq; the uniqueness oracle is applied to the implementation's own handles."),
+    "note": ("Trusted: Coq kernel + vm_compute; hand model EntityModel.v (checked against the code by the correspondence "
+             "run on every check); simulator harness; the Release-profile behaviour is proved on the model only (the "
+             "harness is a dev build). Axioms: none. Known finding C35-counter-overflow (proposed_fixes/"
+             "C35-counter-overflow.diff)."),
     "technique": "Coq proof (handle invariant by induction over all mail histories, Debug/Release profile parameter) "
                  "+ differential correspondence on the simulated stack with the uniqueness oracle evaluated in Coq",
 }
